@@ -53,7 +53,7 @@ def _tlc(rep, module, cfg, evs, keys, suite, clauses):
 
 
 def validate(rep, what, clauses):
-    """what: subset of {"join", "sort", "group", "truth"}"""
+    """what: subset of {"join", "sort", "group", "truth", "getitem", "setitem"}"""
     evs, tail, rc = record()
     rep.notes.append(f"repository tests under the recorder: {tail}")
     use = [e for e in evs if not e.get("skipped")]
@@ -68,6 +68,12 @@ def validate(rep, what, clauses):
     if "group" in what:
         _tlc(rep, "Trace_Group", "Trace_Group.cfg", [e for e in use if e["op"] in ("aggregate", "window")],
              suite_group.SPEC_KEYS, "repo.group", clauses)
+    if "getitem" in what:
+        _tlc(rep, "Trace_Vector", "Trace_Vector.cfg", [e for e in use if e["op"] == "rgetitem"],
+             ["id", "op", "n", "key", "vals", "res", "ok"], "repo.getitem", clauses)
+    if "setitem" in what:
+        _tlc(rep, "Trace_Vector", "Trace_Vector.cfg", [e for e in use if e["op"] == "rsetitem"],
+             ["id", "op", "n", "key", "before", "value", "after", "ok"], "repo.setitem", clauses)
     if "truth" in what:
         tr = [e for e in evs if e["op"] == "_truth"]
         if tr:
